@@ -335,6 +335,16 @@ def layout(forest):
                     body.append(0)
             if u.root is not None:
                 emit(u.root, None)
+                # a unit whose last chains of siblings are closed by the end of the unit, not by null entries
+                closers, d = 0, u.root
+                while d.flag:
+                    closers += 1
+                    if not d.children:
+                        break
+                    d = d.children[-1]
+                for _ in range(min(getattr(u, "unclosed", 0), closers)):
+                    assert body[-1] == 0
+                    body.pop()
             if u.version >= 5:
                 ut = C("DW_UT_partial") if u.root is not None and u.root.tag == "DW_TAG_partial_unit" else C("DW_UT_compile")
                 extra = []
@@ -385,6 +395,9 @@ def write_object(forest, path, symbols_asm=""):
             f.write('\t.section .debug_str_offsets,"",@progbits\n' + bytes_directive(forest.str_offsets))
         if getattr(forest, "line_str", None):
             f.write('\t.section .debug_line_str,"MS",@progbits,1\n' + bytes_directive(forest.line_str))
+        # further sections as they are (forest.extra_sections: name -> list of bytes), e.g. range lists
+        for name, data in sorted(getattr(forest, "extra_sections", {}).items()):
+            f.write('\t.section %s,"",@progbits\n' % name + bytes_directive(list(data)))
     subprocess.run(["as", "-o", path, src], check=True)
     return src
 
